@@ -4169,10 +4169,17 @@ class State:
 
         match self.street.opening:
             case Opening.POSITION:
+                # heads-up the blinds are posted in reverse seat order (the
+                # button posts the small blind): equal blinds are a tie
+                # that the first seat, the big blind, must win
+                reverse_status = self.player_count == 2 and any(self.bets)
                 max_bet_index = max(
                     self.player_indices,
                     key=lambda i: (
-                        (self.bets[i] * sign(self.blinds_or_straddles[i]), i)
+                        (
+                            self.bets[i] * sign(self.blinds_or_straddles[i]),
+                            -i if reverse_status else i,
+                        )
                     ),
                 )
                 self.opener_index = (max_bet_index + 1) % self.player_count
